@@ -345,6 +345,8 @@ def build_pair_query(db, prog, name, pairing=None, extra_cuts=None, propid='C01'
         if c in hooks.get('custom_stubs_r', {}):
             stubs.append(hooks['custom_stubs_r'][c])
             continue
+        if c.startswith('ref_') and hooks.get('event_record'):
+            continue
         if c.startswith('ref_'):
             raise Unsupported('reference routine accesses the event record (%s): angular-correlation block, not covered yet' % c)
         txt, shp = pairing.stub_ref(c)
@@ -355,6 +357,10 @@ def build_pair_query(db, prog, name, pairing=None, extra_cuts=None, propid='C01'
                 raise Unsupported('parameter shapes of %s and reference %s differ: %s vs %s' % (cx, c, sx, shp[1]))
     # ---- cut points --------------------------------------------------------------------------------
     bx0, br0 = fx.body, fr.body
+    if hooks.get('transform_x'):
+        bx0 = hooks['transform_x'](copy.deepcopy(bx0))
+    if hooks.get('transform_r'):
+        br0 = hooks['transform_r'](copy.deepcopy(br0))
     if name in TRUNCATE:
         bx0 = drop_unreachable_tail(truncate_at(bx0, TRUNCATE[name]), TRUNCATE[name])
         br0 = drop_unreachable_tail(truncate_at(br0, TRUNCATE[name]), TRUNCATE[name])
@@ -443,11 +449,20 @@ def build_pair_query(db, prog, name, pairing=None, extra_cuts=None, propid='C01'
     checks = []
     unrelated = []
     G = []
+    # function-local statics of the C++ side with constant initialisers (static const double pi = M_PI ...): at a cut point
+    # they hold their initial value (write-once: C07 frame scan), they are not arbitrary
+    static_init = {}
+    ox_ = bx2c.Opts(uf=True, prefix='x_', hoist=True, litmap=None)
+    for (snm, st_, sinit, sconst) in fx.statics:
+        if sinit is not None and ctype_of_local(T, st_) == 'double':
+            static_init[snm] = sinit
     for key in sorted(set(vx) | set(vr)):
         if key in hooks.get('skip_vars', ()):
             continue
         a = vx.get(key)
         b = vr.get(key)
+        if a and a[1] in static_init:
+            continue
         if a and b:
             ta = bx2c.strip_cv(a[2].replace('&', '')).replace('bxdecay0::', '')
             tb = bx2c.strip_cv(b[2].replace('&', ''))
@@ -561,6 +576,15 @@ def build_pair_query(db, prog, name, pairing=None, extra_cuts=None, propid='C01'
     for ln in hooks.get('extra_setup', []):
         setup_entry.append(ln)
         setup_cut.append(ln)
+    for (snm, st_, sinit, sconst) in fx.statics:
+        if snm in static_init:
+            ox_.litmap = litmap
+            setup_cut.append('  x_%s = %s;' % (snm, bx2c.P(sinit, ox_)))
+            b = vr.get(_norm(snm))
+            if b is not None and b[1] not in getattr(fr, 'commons', {}):
+                setup_cut.append('  r_%s = x_%s;' % (b[1], snm))
+            if b is not None:
+                checks.append((_norm(snm), 'bx_same(x_%s, r_%s)' % (snm, b[1])))
     checks += list(hooks.get('extra_checks', []))
     G += list(hooks.get('extra_globals', []))
     # state commons of the reference side that no hook declared
